@@ -641,11 +641,11 @@ def gen_named():
                 tgt = s.target
             if tgt is not None and U(tgt) in targets:
                 need(U(tgt) not in got, f'{qual}: {U(tgt)} assigned twice')
-                m = Mini(qual, calls={'convert_to_dict': conv})
+                m = Mini(qual, defaults={('tok', 'A'): 'd'}, calls={'convert_to_dict': conv})
                 got[U(tgt)] = m.expr(s.value, base_env)
         need(sorted(got) == sorted(targets), f'{qual}: fields {sorted(got)} (expected {sorted(targets)})')
         return got, fd.lineno
-    R_ = ('R',)
+    R_ = ('tok', 'A')
     mapping = {'mapping': ('mapping', ('dict', ('Z',)))}
     env_agg = dict(mapping)
     env_agg.update({'function_output.gradient': ('gradient', ('opt', ('list', R_))), 'function_output.hessian': ('hessian', ('opt', ('list', ('list', R_)))),
@@ -659,18 +659,18 @@ def gen_named():
     tm = ('opt', ('opt', ('dict', ('opt', ('dict', R_)))))
     need(g1['self.gradient'][1] == tv and g1['self.hessian'][1] == tm and g2['self.bhhh'][1] == tm, 'named aggregated outputs: types changed')
     out.append(f'(* from {rel}:{l1} NamedFunctionOutput / :{l2} NamedBiogemeFunctionOutput (outer None = not asked, inner None = IndexError) *)\n'
-               'Definition named_gradient (gradient : option (list R)) (mapping : list (string * Z)) := ' + g1['self.gradient'][0] + '.\n'
-               'Definition named_hessian (hessian : option (list (list R))) (mapping : list (string * Z)) := ' + g1['self.hessian'][0] + '.\n'
-               'Definition named_bhhh (bhhh : option (list (list R))) (mapping : list (string * Z)) := ' + g2['self.bhhh'][0] + '.\n')
+               'Definition named_gradient {A} (d : A) (gradient : option (list A)) (mapping : list (string * Z)) := ' + g1['self.gradient'][0] + '.\n'
+               'Definition named_hessian {A} (d : A) (hessian : option (list (list A))) (mapping : list (string * Z)) := ' + g1['self.hessian'][0] + '.\n'
+               'Definition named_bhhh {A} (d : A) (bhhh : option (list (list A))) (mapping : list (string * Z)) := ' + g2['self.bhhh'][0] + '.\n')
     env_dis = dict(mapping)
     env_dis.update({'function_output.gradients': ('gradients', ('opt', ('list', ('list', R_)))),
                     'function_output.hessians': ('hessians', ('opt', ('list', ('list', ('list', R_))))),
                     'function_output.bhhhs': ('bhhhs', ('opt', ('list', ('list', ('list', R_)))))})
     g3, l3 = fields('NamedBiogemeDisaggregateFunctionOutput.__init__', env_dis, ['self.gradients', 'self.hessians', 'self.bhhhs'])
     out.append(f'(* from {rel}:{l3} NamedBiogemeDisaggregateFunctionOutput *)\n'
-               'Definition named_gradients (gradients : option (list (list R))) (mapping : list (string * Z)) := ' + g3['self.gradients'][0] + '.\n'
-               'Definition named_hessians (hessians : option (list (list (list R)))) (mapping : list (string * Z)) := ' + g3['self.hessians'][0] + '.\n'
-               'Definition named_bhhhs (bhhhs : option (list (list (list R)))) (mapping : list (string * Z)) := ' + g3['self.bhhhs'][0] + '.\n')
+               'Definition named_gradients {A} (d : A) (gradients : option (list (list A))) (mapping : list (string * Z)) := ' + g3['self.gradients'][0] + '.\n'
+               'Definition named_hessians {A} (d : A) (hessians : option (list (list (list A)))) (mapping : list (string * Z)) := ' + g3['self.hessians'][0] + '.\n'
+               'Definition named_bhhhs {A} (d : A) (bhhhs : option (list (list (list A)))) (mapping : list (string * Z)) := ' + g3['self.bhhhs'][0] + '.\n')
     return ''.join(out)
 
 
@@ -684,5 +684,286 @@ def gen_pack(ctx):
 
 
 # ----------------------------------------------------------------------------------------- stream pack
+PACK_HEADER = (
+    'From Coq Require Import ZArith List String Bool.\n'
+    'From BV Require Import Model.PyBase Model.IdMgr Model.Pack Gen.Pack.\n'
+    'Import ListNotations.\nOpen Scope Z_scope.\nOpen Scope string_scope.\n'
+    'Fixpoint leqb {A} (eqb : A -> A -> bool) (a b : list A) : bool :=\n'
+    '  match a, b with [], [] => true | x :: a\', y :: b\' => eqb x y && leqb eqb a\' b\' | _, _ => false end.\n'
+    'Definition oeqb {A} (eqb : A -> A -> bool) (a b : option A) : bool :=\n'
+    '  match a, b with Some x, Some y => eqb x y | None, None => true | _, _ => false end.\n'
+    'Definition zl := leqb Z.eqb.\nDefinition zll := leqb zl.\nDefinition zlll := leqb zll.\n'
+    'Definition seqb (a b : string * Z) : bool := String.eqb (fst a) (fst b) && Z.eqb (snd a) (snd b).\n'
+    'Definition deqb := leqb seqb.\n'
+    'Definition meqb := leqb (fun a b : string * option (list (string * Z)) => String.eqb (fst a) (fst b) && oeqb deqb (snd a) (snd b)).\n'
+    'Definition agg_eqb (a b : Z * option (list Z) * option (list (list Z)) * option (list (list Z))) : bool :=\n'
+    "  let '(f1, g1, h1, b1) := a in let '(f2, g2, h2, b2) := b in Z.eqb f1 f2 && oeqb zl g1 g2 && oeqb zll h1 h2 && oeqb zll b1 b2.\n"
+    'Definition dis_eqb (a b : list Z * option (list (list Z)) * option (list (list (list Z))) * option (list (list (list Z)))) : bool :=\n'
+    "  let '(f1, g1, h1, b1) := a in let '(f2, g2, h2, b2) := b in zl f1 f2 && oeqb zll g1 g2 && oeqb zlll h1 h2 && oeqb zlll b1 b2.\n"
+    'Definition res_eqb (a b : pack_result Z (list Z) (list (list Z))) : bool :=\n'
+    '  match a, b with RAgg x, RAgg y => agg_eqb x y | RDis x, RDis y => dis_eqb x y | RErr, RErr => true | _, _ => false end.\n'
+    'Definition is_some_none {A} (o : option (option A)) : bool := match o with Some None => true | _ => false end.\n'
+    'Definition bad_row {A} (o : option (list (option A))) : bool := match o with Some l => existsb (fun x => negb (isSome x)) l | None => false end.\n'
+)
+
+
+def cz(n):
+    return f'({n})' if n < 0 else str(n)
+
+
+def czl(l):
+    return '[' + '; '.join(cz(x) for x in l) + ']'
+
+
+def czll(l):
+    return '[' + '; '.join(czl(x) for x in l) + ']'
+
+
+def czlll(l):
+    return '[' + '; '.join(czll(x) for x in l) + ']'
+
+
+def copt(x, f):
+    return 'None' if x is None else f'(Some {f(x)})'
+
+
+def csl(l):
+    return '[' + '; '.join(coq_string(x) for x in l) + ']'
+
+
+def cdict(items):
+    return '[' + '; '.join(f'({coq_string(k)}, {cz(v)})' for k, v in items) + ']'
+
+
+def cmat(items):
+    return '[' + '; '.join(f'({coq_string(k)}, Some {cdict(row)})' for k, row in items) + ']'
+
+
+def tagged(n, k):
+    f = [100 + r for r in range(n)]
+    g = [[1000 * (r + 1) + i for i in range(k)] for r in range(n)]
+    h = [[[100000 * (r + 1) + 100 * i + j for j in range(k)] for i in range(k)] for r in range(n)]
+    b = [[[-x - 1 for x in row] for row in m] for m in h]
+    return f, g, h, b
+
+
+NAME_POOL = ['B_1', 'B_10', 'B_2', 'b', 'B', '_x', 'asc', 'ASC', 'a9', 'Zeta', 'zeta', 'mu', 'MU_1', 'beta', 'Beta', 'b_', 'b0', 'B0', 'aa', 'a', 'A', '0z', 'z0']
+
+
+def pack_cases(rng, quick):
+    cases = []
+    for i in range(30 if quick else 300):
+        ks = rng.sample(NAME_POOL, rng.randint(0, 8))
+        cases.append({'kind': 'names', 'keys': ks})
+    for i in range(40 if quick else 400):
+        n = rng.randint(0, 6)
+        seq = [rng.randint(-50, 50) for _ in range(n)]
+        names = sorted(rng.sample(NAME_POOL, rng.randint(0, 7)))
+        kind = rng.random()
+        if kind < 0.35 and len(names) <= n:
+            mp = [[nm, j] for j, nm in enumerate(names)]
+        elif kind < 0.6 and n > 0:
+            mp = [[nm, rng.randrange(n)] for nm in names]
+        elif kind < 0.8:
+            mp = [[nm, rng.choice([n, n + 1, -1, -2, 0, max(n - 1, 0)])] for nm in names]
+        else:
+            mp = [[nm, rng.randint(-2, n + 1)] for nm in names]
+        rng.shuffle(mp)
+        cases.append({'kind': 'convert', 'seq': seq, 'map': mp})
+    for cg in (True, False):
+        for ch in (True, False):
+            for cb in (True, False):
+                for agg in (True, False):
+                    for db in (True, False):
+                        for n in (1, 2, 3):
+                            cases.append({'kind': 'select', 'cg': cg, 'ch': ch, 'cb': cb, 'agg': agg, 'db': db, 'n': n, 'k': rng.choice([1, 2, 3])})
+    for n in (0, 1, 2, 3):
+        for hg in (True, False):
+            for hh in (True, False):
+                for hb in (True, False):
+                    cases.append({'kind': 'unique', 'n': n, 'k': rng.choice([1, 2]), 'hg': hg, 'hh': hh, 'hb': hb})
+    for agg in (True, False):
+        for hg in (True, False):
+            for hh in (True, False):
+                for hb in (True, False):
+                    for variant in ('sorted', 'perm', 'bad'):
+                        k = rng.choice([1, 2, 3])
+                        names = rng.sample(NAME_POOL, k)
+                        if variant == 'sorted':
+                            mp = [[nm, j] for j, nm in enumerate(sorted(names))]
+                        elif variant == 'perm':
+                            idx = list(range(k))
+                            rng.shuffle(idx)
+                            mp = [[nm, j] for nm, j in zip(names, idx)]
+                        else:
+                            mp = [[nm, j] for j, nm in enumerate(sorted(names))]
+                            mp[rng.randrange(k)][1] = rng.choice([k, -1])
+                        cases.append({'kind': 'named', 'agg': agg, 'n': rng.choice([1, 2]), 'k': k, 'hg': hg, 'hh': hh, 'hb': hb, 'map': mp, 'keys': names,
+                                      'variant': variant})
+    cases.append({'kind': 'refuse', 'agg': True})
+    cases.append({'kind': 'refuse', 'agg': False})
+    return cases
+
+
+def pack_check_term(c, r):
+    """Gallina boolean: does the generated definition agree with what the implementation returned?  None if the implementation's
+    answer cannot be encoded (reported as a disagreement)"""
+    k = c['kind']
+    if 'harness_exc' in r or 'exc' in r:
+        return None
+    if k == 'names':
+        return (f"(let '(ind, nm) := expressions_names_indices {csl(c['keys'])} in deqb ind {cdict(r['indices'])} && leqb String.eqb nm {csl(r['names'])})")
+    if k == 'convert':
+        obs = 'None' if r.get('index_error') else f'(Some {cdict(r["items"])})'
+        return f'(oeqb deqb (convert_to_dict (-1) {czl(c["seq"])} {cdict(c["map"])}) {obs})'
+    if k == 'select':
+        f, g, h, b = tagged(c['n'], c['k'])
+        if r['kind'] == 'agg':
+            obs = f'(RAgg ({cz(r["f"])}, {copt(r["g"], czl)}, {copt(r["h"], czll)}, {copt(r["b"], czll)}))'
+        elif r['kind'] == 'dis':
+            obs = f'(RDis ({czl(r["f"])}, {copt(r["g"], czll)}, {copt(r["h"], czlll)}, {copt(r["b"], czlll)}))'
+        elif r['kind'] == 'err':
+            obs = 'RErr'
+        else:
+            return None
+        fl = r.get('flags')
+        if fl is None:
+            return None
+        B = coq_bool
+        return (f'(res_eqb (select (-1) [] [] {B(c["cg"])} {B(c["ch"])} {B(c["cb"])} {B(c["agg"])} {"(Some tt)" if c["db"] else "None"} '
+                f'{czl(f)} {czll(g)} {czlll(h)} {czlll(b)}) {obs} && '
+                f"(let '(g1, h1, b1, a1) := engine_flags {B(c['cg'])} {B(c['ch'])} {B(c['cb'])} {B(c['agg'])} in "
+                f'Bool.eqb g1 {B(fl[0])} && Bool.eqb h1 {B(fl[1])} && Bool.eqb b1 {B(fl[2])} && Bool.eqb a1 {B(fl[3])}))')
+    if k == 'unique':
+        f, g, h, b = tagged(c['n'], c['k'])
+        obs = 'None' if r.get('none') else f'(Some ({cz(r["f"])}, {copt(r["g"], czl)}, {copt(r["h"], czll)}, {copt(r["b"], czll)}))'
+        return (f'(oeqb agg_eqb (unique_entry (-1) [] [] {czl(f)} {copt(g if c["hg"] else None, czll)} {copt(h if c["hh"] else None, czlll)} '
+                f'{copt(b if c["hb"] else None, czlll)}) {obs})')
+    if k == 'named':
+        f, g, h, b = tagged(c['n'], c['k'])
+        mp = cdict(c['map'])
+        if c['agg']:
+            tg = f'(named_gradient (-1) {copt(g[0] if c["hg"] else None, czl)} {mp})'
+            th = f'(named_hessian (-1) {copt(h[0] if c["hh"] else None, czll)} {mp})'
+            tb = f'(named_bhhh (-1) {copt(b[0] if c["hb"] else None, czll)} {mp})'
+            if r.get('index_error'):
+                return f'(is_some_none {tg} || is_some_none {th} || is_some_none {tb})'
+            og = 'None' if r['g'] is None else f'(Some (Some {cdict(r["g"])}))'
+            oh = 'None' if r['h'] is None else f'(Some (Some {cmat(r["h"])}))'
+            ob = 'None' if r['b'] is None else f'(Some (Some {cmat(r["b"])}))'
+            return f'(oeqb (oeqb deqb) {tg} {og} && oeqb (oeqb meqb) {th} {oh} && oeqb (oeqb meqb) {tb} {ob})'
+        tg = f'(named_gradients (-1) {copt(g if c["hg"] else None, czll)} {mp})'
+        th = f'(named_hessians (-1) {copt(h if c["hh"] else None, czlll)} {mp})'
+        tb = f'(named_bhhhs (-1) {copt(b if c["hb"] else None, czlll)} {mp})'
+        if r.get('index_error'):
+            return f'(bad_row {tg} || bad_row {th} || bad_row {tb})'
+
+        def lst(x, f):
+            return 'None' if x is None else '(Some [' + '; '.join(f'Some {f(y)}' for y in x) + '])'
+        return (f'(oeqb (leqb (oeqb deqb)) {tg} {lst(r["g"], cdict)} && oeqb (leqb (oeqb meqb)) {th} {lst(r["h"], cmat)} && '
+                f'oeqb (leqb (oeqb meqb)) {tb} {lst(r["b"], cmat)})')
+    if k == 'refuse':
+        if not all(isinstance(x, bool) for x in r['refused']):
+            return None
+        model = '[' + '; '.join(f'gvd_refuses {coq_bool(g)} {coq_bool(h)} {coq_bool(b)}' for g in (True, False) for h in (True, False) for b in (True, False)) + ']'
+        return f'(leqb Bool.eqb {model} {coq_list([coq_bool(x) for x in r["refused"]])})'
+    return None
+
+
 def stream_pack(ctx):
-    pass
+    st = ctx.stream('pack', 'packaging functions on integer-tagged inputs (engine replaced by a recording stub): expressions_names_indices on 0-8 scrambled '
+                    'names, convert_to_dict with valid / permuted / out-of-range maps, calculate_function_and_derivatives over all 32 flag combinations x '
+                    '1-3 rows x database or not, unique_entry on 0-3 entries, Named*FunctionOutput with valid / permuted / invalid maps, the 8 refusal '
+                    'combinations: the Gallina definitions regenerated from the source (Gen/Pack.v), evaluated by vm_compute, vs the implementation; '
+                    'every case is a distinct decision (non-trivial); distinct by case')
+    if not (ROCQ_GEN_OK()):
+        ctx.stream_broken('pack', 'Gen/Pack.v is missing (the extractor failed): nothing to compare with')
+        return
+    cases = pack_cases(ctx.sub_rng('pack'), ctx.quick)
+    res = ctx.impl('c02_pack.py', {'cases': cases})
+    items, idx = [], []
+    for i, (c, r) in enumerate(zip(cases, res)):
+        st.record(c, nontrivial=True)
+        t = pack_check_term(c, r)
+        if t is None:
+            st.disagree(c, 'an answer of the expected kind', r)
+            continue
+        items.append(t)
+        idx.append(i)
+    files = {}
+    B = 120
+    for j in range(0, len(items), B):
+        files[f'pack_{j // B}'] = PACK_HEADER + 'Eval vm_compute in [\n' + ';\n'.join(items[j:j + B]) + '].\n'
+    outs = ctx.coq_eval_many(files)
+    for name in sorted(files, key=lambda x: int(x.split('_')[1])):
+        ok, out = outs[name]
+        j0 = int(name.split('_')[1]) * B
+        n_here = len(items[j0:j0 + B])
+        if not ok:
+            ctx.stream_broken('pack', 'model evaluation failed: ' + out[-800:])
+            continue
+        bs = parse_bools(out)
+        if len(bs) != n_here:
+            ctx.stream_broken('pack', f'could not parse the model output ({len(bs)} results for {n_here} cases)')
+            continue
+        for jj, b in enumerate(bs):
+            if not b:
+                i = idx[j0 + jj]
+                st.disagree(cases[i], 'the definition generated from the source (Gen/Pack.v) gives another answer', res[i])
+    # property oracles on the same data (independent of the generated model)
+    for c, r in zip(cases, res):
+        pack_oracle(ctx, c, r)
+    if st.disagreements:
+        ctx.stream_broken('pack', f'{len(st.disagreements)} disagreements; first: {json.dumps(st.disagreements[0], default=str)[:900]}')
+
+
+def ROCQ_GEN_OK():
+    from common import ROCQ
+    return (ROCQ / 'Gen' / 'Pack.v').exists()
+
+
+def pack_oracle(ctx, c, r):
+    """direct statements of the property on the tagged runs"""
+    k = c['kind']
+    how = 'lib/impl/c02_pack.py with this case on stdin ({"cases": [<witness>]})'
+    if 'harness_exc' in r or 'exc' in r:
+        ctx.violation(f'C02/pack/{k}/exception', 'a packaging function fails on a well-formed input', c, 'an answer', r, how)
+        return
+    if k == 'names':
+        exp = sorted(set(c['keys']))
+        if r['names'] != exp or r['indices'] != [[nm, i] for i, nm in enumerate(exp)]:
+            ctx.violation('C02/pack/names', 'expressions_names_indices: names are not the sorted keys / an index is not the rank of its name',
+                          c, {'names': exp, 'indices': [[nm, i] for i, nm in enumerate(exp)]}, r, how)
+    elif k == 'convert':
+        n = len(c['seq'])
+        bad = any(i >= n or i < 0 for _, i in c['map'])
+        if bad != bool(r.get('index_error')):
+            ctx.violation('C02/pack/convert/range', 'convert_to_dict: an index outside the sequence is accepted (or a valid one refused)', c,
+                          'IndexError' if bad else 'a dict', r, how)
+        elif not bad and r['items'] != [[nm, c['seq'][i]] for nm, i in c['map']]:
+            ctx.violation('C02/pack/convert/entry', 'convert_to_dict: a name does not receive the entry at its index', c,
+                          [[nm, c['seq'][i]] for nm, i in c['map']], r['items'], how)
+    elif k == 'select':
+        f, g, h, b = tagged(c['n'], c['k'])
+        asked = {'g': c['cg'], 'h': c['ch'], 'b': c['cb']}
+        if r.get('flags') != [c['cg'], c['ch'], c['cb'], c['agg']]:
+            ctx.violation('C02/pack/select/flags', 'the engine does not receive the flags that were asked', c, [c['cg'], c['ch'], c['cb'], c['agg']], r.get('flags'), how)
+        if c['agg'] or (not c['db'] and c['n'] == 1):
+            exp = {'kind': 'agg', 'f': f[0], 'g': g[0] if asked['g'] else None, 'h': h[0] if asked['h'] else None, 'b': b[0] if asked['b'] else None}
+        elif c['db']:
+            exp = {'kind': 'dis', 'f': f, 'g': g if asked['g'] else None, 'h': h if asked['h'] else None, 'b': b if asked['b'] else None}
+        else:
+            exp = {'kind': 'err'}
+        obs = {kk: r.get(kk) for kk in exp}
+        if obs != exp:
+            ctx.violation('C02/pack/select/' + ('aggregated' if c['agg'] else 'per-observation'),
+                          'calculate_function_and_derivatives does not return the first entry (aggregated) / the arrays (per observation) / None for what was not asked',
+                          c, exp, obs, how)
+    elif k == 'named' and c['variant'] != 'bad' and not r.get('index_error'):
+        f, g, h, b = tagged(c['n'], c['k'])
+        mp = c['map']
+        if c['agg']:
+            expg = [[nm, g[0][i]] for nm, i in mp] if c['hg'] else None
+            exph = [[nm, [[n2, h[0][i][j]] for n2, j in mp]] for nm, i in mp] if c['hh'] else None
+            if r['g'] != expg or r['h'] != exph:
+                ctx.violation('C02/pack/named', 'a named output attaches an entry to the wrong name', c, {'g': expg, 'h': exph}, {'g': r['g'], 'h': r['h']}, how)
